@@ -83,6 +83,57 @@ def rule_r1(chk, p, t):
     r.guard(FT + ".__call__", one)
 
 
+def prep_events_forwarding(pe):
+    """Are all scheduled events and station keepers handed to the integrator's event list by Celestial._prepEvents?
+    Returns (ok, reason).  Accepted: `events.extend(x)`, `events = [*x, *y]`, `events += x`, or a loop over x that
+    appends its element on every iteration path; a loop that can skip an element (continue / a test before the append,
+    e.g. a membership test that relies on value equality of events) drops events."""
+    fwd = set()
+    for c in find_calls(pe.node, "extend"):
+        if unparse(c.func.value) == "events" and c.args:
+            fwd.add(unparse(c.args[0]))
+    for n in walk_no_nested(pe.node):
+        if isinstance(n, ast.Assign) and unparse(n.targets[0]) == "events" and isinstance(n.value, ast.List):
+            for e_ in n.value.elts:
+                if isinstance(e_, ast.Starred):
+                    v_ = e_.value
+                    # `*(x or ())` / `*x`
+                    if isinstance(v_, ast.BoolOp) and isinstance(v_.op, ast.Or) and isinstance(v_.values[0], ast.Name):
+                        v_ = v_.values[0]
+                    fwd.add(unparse(v_))
+        if isinstance(n, ast.AugAssign) and unparse(n.target) == "events" and isinstance(n.op, ast.Add):
+            v_ = n.value
+            if isinstance(v_, ast.Call) and call_name(v_) in ("list", "tuple") and v_.args:
+                v_ = v_.args[0]
+            fwd.add(unparse(v_))
+    cfg = cfg_of(pe)
+    dropped = []
+    for ln in cfg.nodes:
+        if ln.kind != "loop" or not isinstance(ln.ast, ast.For) or not isinstance(ln.ast.target, ast.Name):
+            continue
+        src = ln.ast.iter
+        if isinstance(src, ast.Call) and call_name(src) in ("list", "tuple", "iter", "reversed") and src.args:
+            src = src.args[0]
+        var = ln.ast.target.id
+        apps = [n.id for n in cfg.nodes if n.kind == "stmt" and isinstance(n.ast, ast.Expr) and isinstance(n.ast.value, ast.Call) and call_name(n.ast.value) == "append" and unparse(n.ast.value.func.value) == "events" and [unparse(a) for a in n.ast.value.args] == [var]]
+        inside = [a for a in apps if any(x is cfg.nodes[a].ast for x in ast.walk(ln.ast))]
+        if not inside:
+            continue
+        body_starts = [dst for dst, lab in cfg.succ[ln.id] if lab is True]
+        # every path from the body entry back to the loop head passes an append of the loop variable
+        skip = any(ln.id in cfg.reachable(b0, blocked_nodes=inside) for b0 in body_starts if b0 not in inside)
+        if skip:
+            dropped.append(unparse(src))
+        else:
+            fwd.add(unparse(src))
+    want = {pe.params[2], pe.params[3]}
+    if dropped:
+        return False, f"an element of `{dropped[0]}` can be skipped before it is appended to the integrator's event list (a conditional append: e.g. a membership test, which relies on value equality of events that does not compare their effect)"
+    if fwd >= want:
+        return True, "station keeping and scheduled events are both handed to the integrator"
+    return False, "scheduled events are not all added to the integrator's event list"
+
+
 def rule_r2(chk, p, t):
     r = chk.rule(
         "C15.R2",
@@ -96,6 +147,12 @@ def rule_r2(chk, p, t):
     pe = cel.methods.get("_prepEvents")
 
     def f1():
+        okf, why = prep_events_forwarding(pe)
+        if okf:
+            r.ok(pe.qualname + ":events", why, pe.loc())
+        else:
+            r.violation(pe.qualname + ":events", "events-not-forwarded", why, pe.loc())
+            return
         cfg = cfg_of(pe)
         sets = [n for n in cfg.nodes if n.kind == "stmt" and isinstance(n.ast, ast.Assign) and unparse(n.ast.targets[0]) == "self.finite_thrust" and unparse(n.ast.value) != "None"]
         require(len(sets) == 1, "thrust is not re-armed at exactly one place", pe.node)
@@ -140,22 +197,6 @@ def rule_r2(chk, p, t):
             r.violation(pe.qualname, f"re-arm:{bad}:{isinst}:{okcb}:{bool(ok_reset)}", f"_prepEvents does not re-arm the thrust exactly when start < t0 < end (differs on {bad}), for finite-thrust events only, from the event's own callback, after clearing the previous thrust", pe.loc(nd.ast))
         else:
             r.ok(pe.qualname, "thrust cleared, then re-armed iff start < t0 < end", pe.loc(nd.ast))
-        ext = [c for c in find_calls(pe.node, "extend") if unparse(c.func.value) == "events"]
-        fwd = {unparse(c.args[0]) for c in ext}
-        for n in walk_no_nested(pe.node):
-            if isinstance(n, ast.Assign) and unparse(n.targets[0]) == "events" and isinstance(n.value, ast.List):
-                for e_ in n.value.elts:
-                    if isinstance(e_, ast.Starred):
-                        v_ = e_.value
-                        # `*(x or ())` / `*x`
-                        if isinstance(v_, ast.BoolOp) and isinstance(v_.op, ast.Or) and isinstance(v_.values[0], ast.Name):
-                            v_ = v_.values[0]
-                        fwd.add(unparse(v_))
-        if fwd >= {pe.params[2], pe.params[3]}:
-            r.ok(pe.qualname + ":events", "station keeping and scheduled events are both handed to the integrator", pe.loc())
-        else:
-            r.violation(pe.qualname + ":events", "events-not-forwarded", "scheduled events are not all added to the integrator's event list", pe.loc())
-
     r.guard(pe.qualname, f1)
     ae = cel.methods.get("_applyEvents")
 
